@@ -161,9 +161,9 @@ func Validator(c *Ctx) error {
 
 	// 3. order: all pairs over a clean path alphabet + random pairs
 	var paths []string
-	cn := []string{"!", "-", ".a", "0", "a", "a-b", "a b", "ab", "a0", "\xc3\xa9", "a.b"}
+	cn := []string{"!", "-", ".a", "0", "a", "a-b", "a\\b", "\\", "ab", "a b", "a0", "\xc3\xa9", "a.b", "a:b", "\x01", "\xff"}
 	if !c.Thorough() {
-		cn = cn[:8]
+		cn = cn[:9]
 	}
 	for _, x := range cn {
 		paths = append(paths, x)
@@ -182,6 +182,47 @@ func Validator(c *Ctx) error {
 		for _, q := range paths {
 			emitCmp(c, p, q)
 		}
+	}
+	// random pairs over the full byte range (every byte except NUL and '/'),
+	// sharing a random common prefix so that the first difference lands anywhere
+	nPairs := 4000
+	if c.Thorough() {
+		nPairs = 60000
+	}
+	randName := func() string {
+		n := 1 + c.Rand.Intn(3)
+		b := make([]byte, n)
+		for i := range b {
+			for {
+				b[i] = byte(1 + c.Rand.Intn(255))
+				if b[i] != '/' {
+					break
+				}
+			}
+			if c.Rand.Intn(3) == 0 { // bias towards the interesting neighbourhood
+				b[i] = []byte{'.', '-', '0', '\\', ' ', '!', 'a', 0x2e, 0x30, 0x5c, 0x5b, 0x5d}[c.Rand.Intn(12)]
+			}
+		}
+		return string(b)
+	}
+	randPath := func(prefix []string) string {
+		parts := append([]string{}, prefix...)
+		for k := 0; k < 1+c.Rand.Intn(2); k++ {
+			parts = append(parts, randName())
+		}
+		return strings.Join(parts, "/")
+	}
+	for i := 0; i < nPairs; i++ {
+		var prefix []string
+		for k := 0; k < c.Rand.Intn(3); k++ {
+			prefix = append(prefix, randName())
+		}
+		p, q := randPath(prefix), randPath(prefix)
+		if c.Rand.Intn(4) == 0 { // same leading bytes inside one component
+			q = p + randName()
+		}
+		emitCmp(c, p, q)
+		emitCmp(c, q, p)
 	}
 	return nil
 }
